@@ -911,13 +911,28 @@ def full_compare(m):
                 out.append(('bond-labels', f'bond {n}-{k} in_ring: {getattr(bd, "_in_ring", UNSET)!r} != {rb._in_ring!r}'))
             if getattr(bd, '_stereo', UNSET) != rb._stereo:
                 out.append(('stereo', f'bond {n}-{k} stereo label {getattr(bd, "_stereo", UNSET)!r} != {rb._stereo!r}'))
+    # the rebuilt molecule is read in the OPPOSITE order (every derived value first, the SMILES last), so that a value that depends on
+    # what was read before it shows up as a difference; and a value, once read, must not change because something else is read
+    first_r = {key: safe_get(r, key) for key in DERIVED}
     a, c = get_str(m), get_str(r)
     if a != c:
         out.append(('cache', f'str: {a!r} != {c!r}'))
+    first_m = {}
     for key in DERIVED:
-        a, c = safe_get(m, key), safe_get(r, key)
+        a, c = safe_get(m, key), first_r[key]
+        first_m[key] = a
         if a != c:
             out.append(('cache', f'{key}: {a!r} != {c!r}'))
+    for x in (m, r):
+        try:
+            format(x, '!s')
+        except Exception:  # noqa
+            pass
+    for which, x, first in (('the molecule', m, first_m), ('a molecule rebuilt from scratch', r, first_r)):
+        for key in DERIVED:
+            again = safe_get(x, key)
+            if again != first[key]:
+                out.append(('read-order', f'{key} of {which} changed because other derived values were read: {first[key]!r} -> {again!r}'))
     return out
 
 
@@ -1076,6 +1091,15 @@ class SearchHook:
                     self.tainted.add(id(new))
                 if op[0] == 'copy' and deep(new) != deep(m):
                     self.findings.append((i, 'copy-differs', 'copy() does not equal its source'))
+        if e is None and len(world.others) > self.n_others and op[0] != 'swap':
+            # a molecule that was just made (copy, substructure, union(copy=True), split part ...) has never been entered: whatever the
+            # state of its source, no transaction is open on it (the harness' own bookkeeping of `with` blocks, not the _backup slot
+            # of the source, is the reference), so `with new:` must be possible and its edits must recalculate
+            for new in world.others[:len(world.others) - self.n_others]:
+                if in_transaction(new) and not self.stack.get(id(new)):
+                    self.findings.append((i, 'born-in-transaction', f'{op}: the new molecule is inside a transaction nobody opened on it '
+                                                                     f'(_backup set; source inside a transaction: {self.pre_txn}): its edits skip '
+                                                                     f'fix_structure / fix_stereo and `with new:` is refused'))
         if op[0] == 'split' and e is None:
             for part in world.others[:max(0, len(world.others) - self.n_others)]:
                 self.origin[id(part)] = 'split'
@@ -1180,6 +1204,8 @@ def attempt(cur, other, ops, pre=None, post=None):
 def classify(cur, other, ops, hook_findings, final):
     """ops: minimal failing history (culprit = last operation). Returns the key of the recorded defect this failure is an
     instance of, or None"""
+    if not ops:            # the freshly read molecule itself fails an oracle: no operation to blame, never a recorded defect
+        return None
     op = ops[-1]
     k = op[0]
     clean = lambda r: not r[0] and not r[1]
@@ -1332,6 +1358,11 @@ def search_stereo_and_reactions(ck):
     cuts = [READ_STR, ('subh', (1, 2, 3, 5)), ('subh', (1, 2, 3, 4, 5, 6)), ('subh', (2, 3, 4)), ('sub', (1, 2, 3, 5)), ('copy',), ('swap',),
             ('delete_atom', 6), ('add_bond', 4, 6, 1)]
     seeds += [('raw:C[C@H](CF)CCl', 'CN', cuts), ('raw:F/C=C/Cl', 'CN', [READ_STR, ('subh', (2, 3, 4)), ('subh', (1, 2, 3)), ('subh', (1, 2, 3, 4)), ('copy',), ('swap',)])]
+    # stereo centres that the Morgan ranking cannot tell apart (symmetric rings: the stereo-aware ranking has to break the ties
+    # itself): reads in every order, an edit that keeps / creates the symmetry, copies, transactions
+    sym = [READ_STR, ('read', ('atoms_order',)), ('delete_atom', 1), ('add_atom', 6, 0, False, None), ('copy',), ('swap',), ('enter',), ('exit_ok',)]
+    seeds += [('C[C@H]1CC[C@@H](C)CC1', 'CN@30', sym), ('C[C@H]1CC[C@H](C)CC1', 'CN@30', sym), ('C[C@H]1C[C@@H](C)C1', 'CN@30', sym),
+              ('CO[C@H]1[C@H](O)[C@@H](O)[C@H](O)[C@@H](O)[C@@H]1O', 'CN@30', sym)]
     for cur, other, alphabet in seeds:
         status = {}
         for d in range(0, 3):
